@@ -266,6 +266,45 @@ type dispWorld struct {
 	closed []dispClosed // writers of removed connections
 	rem    []dispRemFeat
 	cfg    []string // the loc / rem lines of the model configuration
+	apr    map[string]int // local server features ("ent/feat") that carry write approval callbacks -> how many
+}
+
+// dispAprDenies: the verdict of the approval callbacks of a world is an INPUT of the history - a function of the
+// write's message counter: every fourth write is denied (by the first callback; the others approve), the rest is
+// approved by all
+func dispAprDenies(ctr uint64) bool { return ctr%4 == 3 }
+
+// addApproval registers n approval callbacks on a server feature. Every callback answers at once: callback 0 from
+// inside the callback, the others from a goroutine of their own (an application that hands the decision on)
+func (w *dispWorld) addApproval(fl api.FeatureLocalInterface, n int) {
+	if w.apr == nil {
+		w.apr = map[string]int{}
+	}
+	for i := 0; i < n; i++ {
+		i := i
+		err := fl.AddWriteApprovalCallback(func(m *api.Message) {
+			if m == nil || m.RequestHeader == nil || m.RequestHeader.MsgCounter == nil {
+				return // (such writes are not sent to features with approval callbacks: ApproveOrDenyWrite needs the counter)
+			}
+			verdict := model.ErrorType{ErrorNumber: 0}
+			if i == 0 && dispAprDenies(uint64(*m.RequestHeader.MsgCounter)) {
+				verdict = model.ErrorType{ErrorNumber: model.ErrorNumberTypeGeneralError, Description: util.Ptr(model.DescriptionType("denied by the application"))}
+			}
+			if i == 0 {
+				fl.ApproveOrDenyWrite(m, verdict)
+			} else {
+				cp := *m // ... and queues the message by value
+				done := make(chan struct{})
+				go func() { defer close(done); fl.ApproveOrDenyWrite(&cp, verdict) }()
+				<-done
+			}
+		})
+		if err != nil {
+			panic(err)
+		}
+	}
+	a := fl.Address()
+	w.apr[fmt.Sprintf("%s/%d", h.EntStr(a.Entity), *a.Feature)] = n
 }
 
 func dispEnt(e []uint) []model.AddressEntityType { return spine.NewAddressEntityType(e) }
@@ -317,6 +356,23 @@ func dispNewWorld(op string) *dispWorld {
 	lc2.AddFunctionType(model.FunctionTypeLoadControlLimitConstraintsListData, true, false)
 	lc2.SetData(model.FunctionTypeLoadControlLimitListData, dispLimits(2, false))
 	e2.GetOrAddFeature(t4, model.RoleTypeClient) // [2]/3
+	// `apr=K` (optional sixth token): server features that carry write approval callbacks. bit 0: [2]/2 (one callback),
+	// bit 1: [1]/1 (two callbacks), bit 2: the generic server features [1]/2 and [2]/1 (one / two callbacks)
+	for _, t := range f[5:] {
+		if strings.HasPrefix(t, "apr=") {
+			k, _ := strconv.Atoi(t[4:])
+			if k&1 != 0 {
+				w.addApproval(lc2, 1)
+			}
+			if k&2 != 0 {
+				w.addApproval(lc, 2)
+			}
+			if k&4 != 0 {
+				w.addApproval(e1.FeatureOfAddress(util.Ptr(model.AddressFeatureType(2))), 1)
+				w.addApproval(e2.FeatureOfAddress(util.Ptr(model.AddressFeatureType(1))), 2)
+			}
+		}
+	}
 	w.rem = []dispRemFeat{
 		{[]uint{0}, 0, model.FeatureTypeTypeNodeManagement, model.RoleTypeSpecial},
 		{[]uint{1}, 1, model.FeatureTypeTypeLoadControl, model.RoleTypeClient},
@@ -804,6 +860,7 @@ type dispStats struct {
 	reanns, unbindAfterReann, writeAfterUnbind, writesFromRelative                                                                  int
 	treeOps, nmReads, nmReadsAfterChange, nmEntryReads, writesSrcDev, writesSrcDevForeignBound, writesSrcDevOwnBound                int
 	writesWriteOnly, writesUnannounced                                                                                              int
+	aprApprovedAck, aprApprovedNoAck, aprDenied, aprSkipped                                                                         int
 	covered                                                                                                                         map[string]bool // classifier:function pairs of registered functions that were visited
 }
 
@@ -1353,6 +1410,18 @@ func (x *dispRun) execDg(op string, f []string, p int) bool {
 		}
 	}
 	defer func() { x.nmCur = nil }()
+	// write approval: the destination carries approval callbacks; their verdict is an input (dispAprDenies)
+	aprOn, denied := false, false
+	if clsS == "write" && lf != nil && w.apr[h.AddrS(lf.Address())] > 0 {
+		if !hasCtr {
+			// ApproveOrDenyWrite identifies the write by its counter (C12's precondition): not sent
+			x.st.aprSkipped++
+			x.r.Eval("approval:skipped-write-without-counter", "")
+			return !x.failed
+		}
+		aprOn = true
+		denied = dispAprDenies(ctr)
+	}
 	if clsS == "write" && lf != nil && announcedWritable && registered && bad != engineRejects {
 		panic("op " + op + ": the bad token does not match the announced operations of the feature")
 	}
@@ -1575,6 +1644,13 @@ func (x *dispRun) execDg(op string, f []string, p int) bool {
 				}
 			}
 			switch {
+			case authorisedWrite && registered && !isNM && denied:
+				// authorised and presented to the approval callbacks, one of which denies: rejected - one error result,
+				// nothing changes, nobody is notified
+				x.st.aprDenied++
+				x.r.Eval("approval:denied:"+dispAckShape(ack), "")
+				expect("error", "C03/rejected-write-not-one-error")
+				x.silent(op, t, p, nData, changed, before, after)
 			case authorisedWrite && registered && !isNM && engineRejects:
 				// authorised, but the update engine refuses the payload: rejected like a denied write
 				x.st.writesEngineRej++
@@ -1593,6 +1669,16 @@ func (x *dispRun) execDg(op string, f []string, p int) bool {
 					break
 				}
 				x.st.writesOK++
+				if aprOn {
+					// through the approval path (approved by every callback): the same rule - one success result iff an
+					// acknowledgement was requested, none otherwise
+					if ack {
+						x.st.aprApprovedAck++
+					} else {
+						x.st.aprApprovedNoAck++
+					}
+					x.r.Eval("approval:approved:"+dispAckShape(ack), "")
+				}
 				expect(dispAckShape(ack), "C03/authorised-write-not-accepted")
 				key := fmt.Sprintf("%s#%d", dst, fn)
 				// (a partial write can only update limits that exist and are changeable - C04's subject; the harness
@@ -1663,8 +1749,8 @@ func (x *dispRun) execDg(op string, f []string, p int) bool {
 	x.r.Eval(kind, nt)
 	if x.d != nil {
 		line := strings.Join(f[:9], " ")
-		if bad {
-			line += " bad"
+		if bad || denied {
+			line += " bad" // the model's abstract input "the write is rejected after the gate": engine or application
 		}
 		if noerr {
 			line += " noerr"
@@ -2551,6 +2637,20 @@ func dispWitnessSourceDevice() []string {
 		"dg 2 1/1 1/1 108 - read 0 " + lim + " sd=1", "dg 1 1/1 1/1 109 - read 1 " + lim + " sd=-"}
 }
 
+// writes that pass through the approval path (server features with approval callbacks): approved with ackRequest on /
+// off, denied (counter = 3 mod 4) with and without, a write the gate rejects (never presented), engine-refused after
+// approval; the same on the two-callback feature [1]/1, whose second callback answers from another goroutine with a
+// copy of the message
+func dispWitnessApproval() []string {
+	lim := strconv.Itoa(dispFnID[dispFnLimit])
+	lc := strconv.Itoa(dispTypeID[model.FeatureTypeTypeLoadControl])
+	return []string{dispWorldFixed + " apr=3", "conn 1", "conn 2", "bind 1 2/2 2/2 " + lc + " 101 1", "sub 2 1/3 2/2 " + lc + " 102 1",
+		"dg 1 2/2 2/2 104 - write 1 " + lim + " v=3", "dg 1 2/2 2/2 105 - write 0 " + lim + " v=4", "dg 1 2/2 2/2 106 - write 0 " + lim + " v=5 part",
+		"dg 1 2/2 2/2 107 - write 1 " + lim + " v=6", "dg 1 2/2 2/2 111 - write 0 " + lim + " v=7", "dg 2 2/2 2/2 108 - write 1 " + lim + " v=8",
+		"bind 2 1/1 1/1 " + lc + " 109 0", "dg 2 1/1 1/1 112 - write 0 " + lim + " v=9", "dg 2 1/1 1/1 113 - write 1 " + lim + " v=10",
+		"dg 2 1/1 1/1 115 - write 0 " + lim + " v=11", "dg 2 1/1 1/1 116 - write 1 " + lim + " v=12 part", "dg 1 2/2 2/2 117 - read 0 " + lim}
+}
+
 // ---------- generator
 
 var dispOverviewPanics = true
@@ -3090,7 +3190,13 @@ func (env *dispEnv) history(rng interface{ Intn(int) int }, n int, c03 bool) *di
 	t2 := pool[rng.Intn(len(pool))]
 	t3 := pool[rng.Intn(len(pool))]
 	t4 := pool[rng.Intn(len(pool))]
-	x.exec(fmt.Sprintf("world %s %s %s %d", t2, t3, t4, rng.Intn(1<<20)))
+	wseed := rng.Intn(1 << 20)
+	wop := fmt.Sprintf("world %s %s %s %d", t2, t3, t4, wseed)
+	if wseed%3 == 0 {
+		// every third world: some server features carry write approval callbacks (which ones: from the same seed)
+		wop += fmt.Sprintf(" apr=%d", 1+(wseed/3)%7)
+	}
+	x.exec(wop)
 	np := 2 + rng.Intn(2)
 	for p := 1; p <= np; p++ {
 		x.exec(fmt.Sprintf("conn %d", p))
@@ -3315,7 +3421,7 @@ func TestDispatch(t *testing.T) {
 
 	// ---- corpus: the witnesses (each known finding is reproduced on every run), then past failures
 	for _, ops := range [][]string{dispWitnessResult(), dispWitnessUnbind(), dispWitnessEntity(), dispWitnessDrop(), dispWitnessPrefix(), dispWitnessReann(), dispWitnessFull(),
-		dispWitnessFunctionElement(), dispWitnessReconnect(), dispWitnessDevInfoAndFeatureless(), dispWitnessTreeChanges(), dispWitnessAnnouncement(), dispWitnessSourceDevice()} {
+		dispWitnessFunctionElement(), dispWitnessReconnect(), dispWitnessDevInfoAndFeatureless(), dispWitnessTreeChanges(), dispWitnessAnnouncement(), dispWitnessSourceDevice(), dispWitnessApproval()} {
 		env.runOps(r, ops, true)
 	}
 
@@ -3379,6 +3485,7 @@ func TestDispatch(t *testing.T) {
 	st := env.st
 	r.Info["writes"] = map[string]int{"total": st.writes, "accepted": st.writesOK, "unauthorised": st.writesUnauth, "authorised_but_refused_by_update_engine": st.writesEngineRej, "denied_while_subscribed": st.deniedWithSubs,
 		"notifications_of_accepted_writes": st.notifies}
+	r.Info["writes_through_the_approval_path"] = map[string]int{"approved_with_ackRequest": st.aprApprovedAck, "approved_without_ackRequest": st.aprApprovedNoAck, "denied_by_a_callback": st.aprDenied, "not_sent_for_lack_of_a_counter": st.aprSkipped}
 	r.Info["registry_calls"] = map[string]int{"bind": st.binds, "bind_granted": st.bindsOK, "unbind": st.unbinds, "unbind_done": st.unbindsOK, "subscriptions_granted": st.subsOK}
 	var cov []string
 	for k := range st.covered {
@@ -3412,6 +3519,8 @@ func TestDispatch(t *testing.T) {
 	r.Floor("writes of a write-only function (per 1000 writes)", st.writesWriteOnly*1000, st.writes, 10)
 	r.Floor("writes of a function with data that is not announced (per 1000 writes)", st.writesUnannounced*1000, st.writes, 5)
 	r.Floor("writes accepted", st.writesOK, st.writes, 0.15)
+	r.Floor("accepted writes that went through approval callbacks, without ackRequest (per 1000 accepted writes)", st.aprApprovedNoAck*1000, st.writesOK, 20)
+	r.Floor("authorised writes denied by an approval callback (per 1000 writes)", st.aprDenied*1000, st.writes, 3)
 	r.Floor("writes unauthorised", st.writesUnauth, st.writes, 0.40)
 	r.Floor("binding requests granted", st.bindsOK, st.binds, 0.30)
 	r.Floor("binding deletions done", st.unbindsOK, st.unbinds, 0.15)
